@@ -1,7 +1,7 @@
 import UrcuVerif.Fork.Model
 /-!
-# C16 — classification of program counters (generated text: every constructor is listed, so that
-each function has unconditional equation lemmas)
+# C16 — classification of program counters (every constructor is listed, so that each function has
+unconditional equation lemmas)
 -/
 namespace UrcuVerif.Fork
 
@@ -9,720 +9,160 @@ namespace UrcuVerif.Fork
 def UPc.holdsM : UPc → Bool
   | .gone => false
   | .idle => false
-  | .sel _ => false
-  | .gdLock _ => false
-  | .gdCreate _ => true
-  | .gdUnlock _ => true
-  | .enq _ _ => false
-  | .crWk _ => false
-  | .crRet => false
-  | .opLock _ => false
-  | .opDo _ => true
-  | .opUnlock => true
-  | .regLock => false
-  | .regDo => false
-  | .unregLock => false
-  | .unregDo => false
-  | .g0 => false
-  | .g1 => false
-  | .g2 => false
-  | .g3 => false
-  | .barLock _ => false
+  | .gp => false
   | .barLoop _ _ => true
-  | .barWk _ _ _ => true
   | .barWait _ => false
-  | .bfLock => false
   | .bfPause _ => true
-  | .bfWk _ _ => true
   | .bfWait _ => true
   | .atFork => true
   | .afpClr _ => true
   | .afpWait _ => true
   | .afcUnlock => true
-  | .afcChk => false
-  | .afcGdLock => false
-  | .afcGdCreate => true
-  | .afcGdUnlock => true
-  | .afcReset => false
+  | .afcCreate => false
   | .afcLoop _ => false
-  | .afcStop _ _ => false
-  | .afcFLock _ _ => false
-  | .afcFChk _ _ => true
-  | .afcFLock2 _ _ => false
-  | .afcSplice _ _ => true
-  | .afcWk _ _ _ => true
-  | .afcDel _ _ => true
 
 /-- the thread holds `rcu_gp_lock` -/
 def UPc.holdsG : UPc → Bool
   | .gone => false
   | .idle => false
-  | .sel _ => false
-  | .gdLock _ => false
-  | .gdCreate _ => false
-  | .gdUnlock _ => false
-  | .enq _ _ => false
-  | .crWk _ => false
-  | .crRet => false
-  | .opLock _ => false
-  | .opDo _ => false
-  | .opUnlock => false
-  | .regLock => false
-  | .regDo => false
-  | .unregLock => false
-  | .unregDo => false
-  | .g0 => false
-  | .g1 => true
-  | .g2 => true
-  | .g3 => true
-  | .barLock _ => false
+  | .gp => true
   | .barLoop _ _ => false
-  | .barWk _ _ _ => false
   | .barWait _ => false
-  | .bfLock => false
   | .bfPause _ => false
-  | .bfWk _ _ => false
   | .bfWait _ => false
   | .atFork => false
   | .afpClr _ => false
   | .afpWait _ => false
   | .afcUnlock => false
-  | .afcChk => false
-  | .afcGdLock => false
-  | .afcGdCreate => false
-  | .afcGdUnlock => false
-  | .afcReset => false
+  | .afcCreate => false
   | .afcLoop _ => false
-  | .afcStop _ _ => false
-  | .afcFLock _ _ => false
-  | .afcFChk _ _ => false
-  | .afcFLock2 _ _ => false
-  | .afcSplice _ _ => false
-  | .afcWk _ _ _ => false
-  | .afcDel _ _ => false
-
-/-- the thread holds `rcu_registry_lock` -/
-def UPc.holdsR : UPc → Bool
-  | .gone => false
-  | .idle => false
-  | .sel _ => false
-  | .gdLock _ => false
-  | .gdCreate _ => false
-  | .gdUnlock _ => false
-  | .enq _ _ => false
-  | .crWk _ => false
-  | .crRet => false
-  | .opLock _ => false
-  | .opDo _ => false
-  | .opUnlock => false
-  | .regLock => false
-  | .regDo => true
-  | .unregLock => false
-  | .unregDo => true
-  | .g0 => false
-  | .g1 => false
-  | .g2 => true
-  | .g3 => false
-  | .barLock _ => false
-  | .barLoop _ _ => false
-  | .barWk _ _ _ => false
-  | .barWait _ => false
-  | .bfLock => false
-  | .bfPause _ => false
-  | .bfWk _ _ => false
-  | .bfWait _ => false
-  | .atFork => false
-  | .afpClr _ => false
-  | .afpWait _ => false
-  | .afcUnlock => false
-  | .afcChk => false
-  | .afcGdLock => false
-  | .afcGdCreate => false
-  | .afcGdUnlock => false
-  | .afcReset => false
-  | .afcLoop _ => false
-  | .afcStop _ _ => false
-  | .afcFLock _ _ => false
-  | .afcFChk _ _ => false
-  | .afcFLock2 _ _ => false
-  | .afcSplice _ _ => false
-  | .afcWk _ _ _ => false
-  | .afcDel _ _ => false
 
 /-- inside the fork window on the parent side (mutex held since `bfLock`) -/
 def UPc.inBf : UPc → Bool
   | .gone => false
   | .idle => false
-  | .sel _ => false
-  | .gdLock _ => false
-  | .gdCreate _ => false
-  | .gdUnlock _ => false
-  | .enq _ _ => false
-  | .crWk _ => false
-  | .crRet => false
-  | .opLock _ => false
-  | .opDo _ => false
-  | .opUnlock => false
-  | .regLock => false
-  | .regDo => false
-  | .unregLock => false
-  | .unregDo => false
-  | .g0 => false
-  | .g1 => false
-  | .g2 => false
-  | .g3 => false
-  | .barLock _ => false
+  | .gp => false
   | .barLoop _ _ => false
-  | .barWk _ _ _ => false
   | .barWait _ => false
-  | .bfLock => false
   | .bfPause _ => true
-  | .bfWk _ _ => true
   | .bfWait _ => true
   | .atFork => true
   | .afpClr _ => true
   | .afpWait _ => true
   | .afcUnlock => false
-  | .afcChk => false
-  | .afcGdLock => false
-  | .afcGdCreate => false
-  | .afcGdUnlock => false
-  | .afcReset => false
+  | .afcCreate => false
   | .afcLoop _ => false
-  | .afcStop _ _ => false
-  | .afcFLock _ _ => false
-  | .afcFChk _ _ => false
-  | .afcFLock2 _ _ => false
-  | .afcSplice _ _ => false
-  | .afcWk _ _ _ => false
-  | .afcDel _ _ => false
 
 /-- inside `call_rcu_after_fork_child()` -/
 def UPc.inAfc : UPc → Bool
   | .gone => false
   | .idle => false
-  | .sel _ => false
-  | .gdLock _ => false
-  | .gdCreate _ => false
-  | .gdUnlock _ => false
-  | .enq _ _ => false
-  | .crWk _ => false
-  | .crRet => false
-  | .opLock _ => false
-  | .opDo _ => false
-  | .opUnlock => false
-  | .regLock => false
-  | .regDo => false
-  | .unregLock => false
-  | .unregDo => false
-  | .g0 => false
-  | .g1 => false
-  | .g2 => false
-  | .g3 => false
-  | .barLock _ => false
+  | .gp => false
   | .barLoop _ _ => false
-  | .barWk _ _ _ => false
   | .barWait _ => false
-  | .bfLock => false
   | .bfPause _ => false
-  | .bfWk _ _ => false
   | .bfWait _ => false
   | .atFork => false
   | .afpClr _ => false
   | .afpWait _ => false
   | .afcUnlock => true
-  | .afcChk => true
-  | .afcGdLock => true
-  | .afcGdCreate => true
-  | .afcGdUnlock => true
-  | .afcReset => true
+  | .afcCreate => true
   | .afcLoop _ => true
-  | .afcStop _ _ => true
-  | .afcFLock _ _ => true
-  | .afcFChk _ _ => true
-  | .afcFLock2 _ _ => true
-  | .afcSplice _ _ => true
-  | .afcWk _ _ _ => true
-  | .afcDel _ _ => true
 
 /-- `after_fork_child` before the new default helper exists -/
 def UPc.afcEarly : UPc → Bool
   | .gone => false
   | .idle => false
-  | .sel _ => false
-  | .gdLock _ => false
-  | .gdCreate _ => false
-  | .gdUnlock _ => false
-  | .enq _ _ => false
-  | .crWk _ => false
-  | .crRet => false
-  | .opLock _ => false
-  | .opDo _ => false
-  | .opUnlock => false
-  | .regLock => false
-  | .regDo => false
-  | .unregLock => false
-  | .unregDo => false
-  | .g0 => false
-  | .g1 => false
-  | .g2 => false
-  | .g3 => false
-  | .barLock _ => false
+  | .gp => false
   | .barLoop _ _ => false
-  | .barWk _ _ _ => false
   | .barWait _ => false
-  | .bfLock => false
   | .bfPause _ => false
-  | .bfWk _ _ => false
   | .bfWait _ => false
   | .atFork => false
   | .afpClr _ => false
   | .afpWait _ => false
   | .afcUnlock => true
-  | .afcChk => true
-  | .afcGdLock => true
-  | .afcGdCreate => true
-  | .afcGdUnlock => false
-  | .afcReset => false
+  | .afcCreate => true
   | .afcLoop _ => false
-  | .afcStop _ _ => false
-  | .afcFLock _ _ => false
-  | .afcFChk _ _ => false
-  | .afcFLock2 _ _ => false
-  | .afcSplice _ _ => false
-  | .afcWk _ _ _ => false
-  | .afcDel _ _ => false
-
-/-- `after_fork_child` after the pointers were reset -/
-def UPc.afcLate : UPc → Bool
-  | .gone => false
-  | .idle => false
-  | .sel _ => false
-  | .gdLock _ => false
-  | .gdCreate _ => false
-  | .gdUnlock _ => false
-  | .enq _ _ => false
-  | .crWk _ => false
-  | .crRet => false
-  | .opLock _ => false
-  | .opDo _ => false
-  | .opUnlock => false
-  | .regLock => false
-  | .regDo => false
-  | .unregLock => false
-  | .unregDo => false
-  | .g0 => false
-  | .g1 => false
-  | .g2 => false
-  | .g3 => false
-  | .barLock _ => false
-  | .barLoop _ _ => false
-  | .barWk _ _ _ => false
-  | .barWait _ => false
-  | .bfLock => false
-  | .bfPause _ => false
-  | .bfWk _ _ => false
-  | .bfWait _ => false
-  | .atFork => false
-  | .afpClr _ => false
-  | .afpWait _ => false
-  | .afcUnlock => false
-  | .afcChk => false
-  | .afcGdLock => false
-  | .afcGdCreate => false
-  | .afcGdUnlock => false
-  | .afcReset => false
-  | .afcLoop _ => true
-  | .afcStop _ _ => true
-  | .afcFLock _ _ => true
-  | .afcFChk _ _ => true
-  | .afcFLock2 _ _ => true
-  | .afcSplice _ _ => true
-  | .afcWk _ _ _ => true
-  | .afcDel _ _ => true
-
-/-- outside liburcu (or erased) -/
-def UPc.isIdle : UPc → Bool
-  | .gone => true
-  | .idle => true
-  | .sel _ => false
-  | .gdLock _ => false
-  | .gdCreate _ => false
-  | .gdUnlock _ => false
-  | .enq _ _ => false
-  | .crWk _ => false
-  | .crRet => false
-  | .opLock _ => false
-  | .opDo _ => false
-  | .opUnlock => false
-  | .regLock => false
-  | .regDo => false
-  | .unregLock => false
-  | .unregDo => false
-  | .g0 => false
-  | .g1 => false
-  | .g2 => false
-  | .g3 => false
-  | .barLock _ => false
-  | .barLoop _ _ => false
-  | .barWk _ _ _ => false
-  | .barWait _ => false
-  | .bfLock => false
-  | .bfPause _ => false
-  | .bfWk _ _ => false
-  | .bfWait _ => false
-  | .atFork => false
-  | .afpClr _ => false
-  | .afpWait _ => false
-  | .afcUnlock => false
-  | .afcChk => false
-  | .afcGdLock => false
-  | .afcGdCreate => false
-  | .afcGdUnlock => false
-  | .afcReset => false
-  | .afcLoop _ => false
-  | .afcStop _ _ => false
-  | .afcFLock _ _ => false
-  | .afcFChk _ _ => false
-  | .afcFLock2 _ _ => false
-  | .afcSplice _ _ => false
-  | .afcWk _ _ _ => false
-  | .afcDel _ _ => false
-
-/-- the callback a thread inside `call_rcu()` is about to enqueue -/
-def UPc.pendId : UPc → Option Nat
-  | .gone => none
-  | .idle => none
-  | .sel id => some id
-  | .gdLock id => some id
-  | .gdCreate id => some id
-  | .gdUnlock id => some id
-  | .enq id _ => some id
-  | .crWk _ => none
-  | .crRet => none
-  | .opLock _ => none
-  | .opDo _ => none
-  | .opUnlock => none
-  | .regLock => none
-  | .regDo => none
-  | .unregLock => none
-  | .unregDo => none
-  | .g0 => none
-  | .g1 => none
-  | .g2 => none
-  | .g3 => none
-  | .barLock _ => none
-  | .barLoop _ _ => none
-  | .barWk _ _ _ => none
-  | .barWait _ => none
-  | .bfLock => none
-  | .bfPause _ => none
-  | .bfWk _ _ => none
-  | .bfWait _ => none
-  | .atFork => none
-  | .afpClr _ => none
-  | .afpWait _ => none
-  | .afcUnlock => none
-  | .afcChk => none
-  | .afcGdLock => none
-  | .afcGdCreate => none
-  | .afcGdUnlock => none
-  | .afcReset => none
-  | .afcLoop _ => none
-  | .afcStop _ _ => none
-  | .afcFLock _ _ => none
-  | .afcFChk _ _ => none
-  | .afcFLock2 _ _ => none
-  | .afcSplice _ _ => none
-  | .afcWk _ _ _ => none
-  | .afcDel _ _ => none
-
-/-- the inherited `call_rcu_data` the child is disposing of, and the rest of its loop -/
-def UPc.afcH : UPc → Option (Nat × List Nat)
-  | .gone => none
-  | .idle => none
-  | .sel _ => none
-  | .gdLock _ => none
-  | .gdCreate _ => none
-  | .gdUnlock _ => none
-  | .enq _ _ => none
-  | .crWk _ => none
-  | .crRet => none
-  | .opLock _ => none
-  | .opDo _ => none
-  | .opUnlock => none
-  | .regLock => none
-  | .regDo => none
-  | .unregLock => none
-  | .unregDo => none
-  | .g0 => none
-  | .g1 => none
-  | .g2 => none
-  | .g3 => none
-  | .barLock _ => none
-  | .barLoop _ _ => none
-  | .barWk _ _ _ => none
-  | .barWait _ => none
-  | .bfLock => none
-  | .bfPause _ => none
-  | .bfWk _ _ => none
-  | .bfWait _ => none
-  | .atFork => none
-  | .afpClr _ => none
-  | .afpWait _ => none
-  | .afcUnlock => none
-  | .afcChk => none
-  | .afcGdLock => none
-  | .afcGdCreate => none
-  | .afcGdUnlock => none
-  | .afcReset => none
-  | .afcLoop _ => none
-  | .afcStop h rem => some (h, rem)
-  | .afcFLock h rem => some (h, rem)
-  | .afcFChk h rem => some (h, rem)
-  | .afcFLock2 h rem => some (h, rem)
-  | .afcSplice h rem => some (h, rem)
-  | .afcWk _ h rem => some (h, rem)
-  | .afcDel h rem => some (h, rem)
 
 /-- the helper thread holds `rcu_gp_lock` -/
 def HPc.holdsG : HPc → Bool
   | .none => false
   | .gone => false
   | .start => false
-  | .startReg => false
-  | .dec0 => false
   | .top => false
-  | .unreg1 => false
-  | .unreg2 => false
+  | .unreg => false
   | .setPaused => false
   | .spin => false
   | .clrPaused => false
-  | .rereg1 => false
-  | .rereg2 => false
+  | .rereg => false
   | .splice => false
   | .g0 => false
   | .g1 => true
-  | .g2 => true
-  | .g3 => true
   | .inv => false
-  | .run => false
-  | .runWk => false
-  | .stopchk => false
-  | .emptychk => false
-  | .waitLd => false
-  | .waitSys => false
-  | .asleep => false
-  | .pollW => false
-  | .dec => false
-  | .pollN => false
-
-/-- the helper thread holds `rcu_registry_lock` -/
-def HPc.holdsR : HPc → Bool
-  | .none => false
-  | .gone => false
-  | .start => false
-  | .startReg => true
-  | .dec0 => false
-  | .top => false
-  | .unreg1 => false
-  | .unreg2 => true
-  | .setPaused => false
-  | .spin => false
-  | .clrPaused => false
-  | .rereg1 => false
-  | .rereg2 => true
-  | .splice => false
-  | .g0 => false
-  | .g1 => false
-  | .g2 => true
-  | .g3 => false
-  | .inv => false
-  | .run => false
-  | .runWk => false
-  | .stopchk => false
-  | .emptychk => false
-  | .waitLd => false
-  | .waitSys => false
-  | .asleep => false
-  | .pollW => false
-  | .dec => false
-  | .pollN => false
+  | .wait => false
 
 /-- the helper thread is in the reader registry -/
 def HPc.isReg : HPc → Bool
   | .none => false
   | .gone => false
   | .start => false
-  | .startReg => false
-  | .dec0 => true
   | .top => true
-  | .unreg1 => true
-  | .unreg2 => true
+  | .unreg => true
   | .setPaused => false
   | .spin => false
   | .clrPaused => false
-  | .rereg1 => false
-  | .rereg2 => false
+  | .rereg => false
   | .splice => true
   | .g0 => true
   | .g1 => true
-  | .g2 => true
-  | .g3 => true
   | .inv => true
-  | .run => true
-  | .runWk => true
-  | .stopchk => true
-  | .emptychk => true
-  | .waitLd => true
-  | .waitSys => true
-  | .asleep => true
-  | .pollW => true
-  | .dec => true
-  | .pollN => true
+  | .wait => true
 
 /-- the helper may hold a spliced-out batch -/
 def HPc.mayBatch : HPc → Bool
   | .none => false
   | .gone => false
   | .start => false
-  | .startReg => false
-  | .dec0 => false
   | .top => false
-  | .unreg1 => false
-  | .unreg2 => false
+  | .unreg => false
   | .setPaused => false
   | .spin => false
   | .clrPaused => false
-  | .rereg1 => false
-  | .rereg2 => false
+  | .rereg => false
   | .splice => false
   | .g0 => true
   | .g1 => true
-  | .g2 => true
-  | .g3 => true
   | .inv => true
-  | .run => true
-  | .runWk => true
-  | .stopchk => false
-  | .emptychk => false
-  | .waitLd => false
-  | .waitSys => false
-  | .asleep => false
-  | .pollW => false
-  | .dec => false
-  | .pollN => false
-
-/-- the helper is executing a callback -/
-def HPc.running : HPc → Bool
-  | .none => false
-  | .gone => false
-  | .start => false
-  | .startReg => false
-  | .dec0 => false
-  | .top => false
-  | .unreg1 => false
-  | .unreg2 => false
-  | .setPaused => false
-  | .spin => false
-  | .clrPaused => false
-  | .rereg1 => false
-  | .rereg2 => false
-  | .splice => false
-  | .g0 => false
-  | .g1 => false
-  | .g2 => false
-  | .g3 => false
-  | .inv => false
-  | .run => true
-  | .runWk => true
-  | .stopchk => false
-  | .emptychk => false
-  | .waitLd => false
-  | .waitSys => false
-  | .asleep => false
-  | .pollW => false
-  | .dec => false
-  | .pollN => false
+  | .wait => false
 
 /-- the helper has seen PAUSE and has not reached the spin yet -/
 def HPc.pausing : HPc → Bool
   | .none => false
   | .gone => false
   | .start => false
-  | .startReg => false
-  | .dec0 => false
   | .top => false
-  | .unreg1 => true
-  | .unreg2 => true
+  | .unreg => true
   | .setPaused => true
   | .spin => false
   | .clrPaused => false
-  | .rereg1 => false
-  | .rereg2 => false
+  | .rereg => false
   | .splice => false
   | .g0 => false
   | .g1 => false
-  | .g2 => false
-  | .g3 => false
   | .inv => false
-  | .run => false
-  | .runWk => false
-  | .stopchk => false
-  | .emptychk => false
-  | .waitLd => false
-  | .waitSys => false
-  | .asleep => false
-  | .pollW => false
-  | .dec => false
-  | .pollN => false
-
-/-- the helper thread exists in this process -/
-def HPc.exists : HPc → Bool
-  | .none => false
-  | .gone => false
-  | .start => true
-  | .startReg => true
-  | .dec0 => true
-  | .top => true
-  | .unreg1 => true
-  | .unreg2 => true
-  | .setPaused => true
-  | .spin => true
-  | .clrPaused => true
-  | .rereg1 => true
-  | .rereg2 => true
-  | .splice => true
-  | .g0 => true
-  | .g1 => true
-  | .g2 => true
-  | .g3 => true
-  | .inv => true
-  | .run => true
-  | .runWk => true
-  | .stopchk => true
-  | .emptychk => true
-  | .waitLd => true
-  | .waitSys => true
-  | .asleep => true
-  | .pollW => true
-  | .dec => true
-  | .pollN => true
+  | .wait => false
 
 def Loc.isQ : Loc → Bool
   | .none => false
-  | .pend => false
   | .queue _ => true
   | .batch _ => true
-  | .run _ => false
   | .done => false
 
 def Loc.invoked : Loc → Bool
   | .none => false
-  | .pend => false
   | .queue _ => false
   | .batch _ => false
-  | .run _ => true
   | .done => true
 
 end UrcuVerif.Fork
